@@ -58,6 +58,7 @@ EXPECTED_PROBES = [
 
 def setup():
     Z.setup_dns()
+    Z.install_commit_fault()
 
 
 # ---------------------------------------------------------------------------
@@ -282,7 +283,7 @@ def _install_hook(txn, hook, counter):
         txn.check_delete_name(fire)
 
 
-def _run_write_txn(ctx, b, m, t, abort_at=None, hook=None, final=True, base_exc=False):
+def _run_write_txn(ctx, b, m, t, abort_at=None, hook=None, final=True, base_exc=False, commit_fault=False):
     """Execute one write transaction.  abort_at=k: raise after k ops inside `with`.
     Returns the model after the transaction (unchanged model if not committed)."""
     res = ctx.res
@@ -369,7 +370,24 @@ def _run_write_txn(ctx, b, m, t, abort_at=None, hook=None, final=True, base_exc=
                     res.faults.inc("abort_by_non_Exception_BaseException")
                     raise Z.PlannedBase("abort")
                 raise Z.Planned("abort")
-            if t["end"] == "rollback":
+            if commit_fault and t["end"] != "rollback":
+                # the commit itself fails: by the documentation the transaction is then rolled back
+                Z.COMMIT_FAULT["armed"] = True
+                try:
+                    txn.commit()
+                    fired = not Z.COMMIT_FAULT["armed"]
+                except MemoryError:
+                    fired = True
+                    res.faults.inc("allocation_failure_inside_commit")
+                    commit_failed = True
+                else:
+                    commit_failed = False
+                finally:
+                    Z.COMMIT_FAULT["armed"] = False
+                if commit_failed:
+                    raise Z.Planned("commit-failed")
+                committed = True  # nothing had to be frozen (no change): an ordinary commit
+            elif t["end"] == "rollback":
                 res.faults.inc("explicit_rollback")
                 txn.rollback()
             elif t["end"] == "commit":
@@ -461,6 +479,13 @@ def _run_config(ctx, case, kind, relativize):
         else:
             for _, k in ks:
                 _run_write_txn(ctx, b, m, t, abort_at=k, final=False, base_exc=(k % 2 == flip))
+        if kind != "plain" and t["end"] != "rollback":
+            r = _run_write_txn(ctx, b, m, t, final=False, commit_fault=True)
+            if r is not m:
+                # the commit had nothing to freeze and went through: undo by reloading is not
+                # possible, so carry the committed model forward
+                m = r
+                continue
         if t.get("hook"):
             # the hook fault run never commits: if the hook does not fire the
             # body is left through an exception after the last operation
